@@ -192,7 +192,7 @@ func genSearchScenario(rng *rand.Rand, profile string, thorough bool) *SearchSce
 		}
 		return sc
 	case "c08":
-		if rng.IntN(60) == 0 {
+		if rng.IntN(200) == 0 {
 			// a search with very many live moves (several queens, deep), then a
 			// Clear, then the same search again next to a brand-new engine: scratch
 			// structures that grew during the first search must not matter
@@ -201,8 +201,8 @@ func genSearchScenario(rng *rand.Rand, profile string, thorough bool) *SearchSce
 				"q2q2k1/1q3ppp/8/8/8/8/1Q3PPP/Q2Q2K1 b - - 0 1",
 				"3qk3/1q1q4/8/8/8/8/1Q1Q4/3QK3 w - - 0 1",
 			}), nil
-			sc.TTBytes, sc.Twins, sc.Style = 4<<20, 1, "fresh"
-			req := Request{Limits: Limits{Nodes: -1, Depth: 14 + rng.IntN(4), SoftNodes: 500_000}, StopAtPoll: -1, Output: true}
+			sc.TTBytes, sc.Twins, sc.Style = pick(rng, []int{1 << 20, 4 << 20, 16 << 20, 16 << 20}), 1, "fresh"
+			req := Request{Limits: Limits{Nodes: -1, Depth: 15 + rng.IntN(2)}, StopAtPoll: -1, Output: true, PollCap: 8_000_000}
 			sc.Steps = []SearchStep{{Req: req, Play: ""}, {Req: req, Play: "", Clear: true}}
 			return sc
 		}
